@@ -13,6 +13,7 @@ contracts of `P2` (`IterSpec`, `pi_noprint` below `x`), `S1` (valid prime table 
 `.ok v` = no table is read out of bounds, no division by zero, no hanging loop.
 -/
 import PcProofs.TopLmoExamples
+import PcProofs.TopLmoRegion
 
 namespace Pc.C02TopLmo
 open Pc Pc.Hard Pc.TopLmo Pc.LB Nat Finset
@@ -75,6 +76,22 @@ theorem s2LmoPar_eq_S2 {σ : Type} (S : SieveOps σ) {L : LmoEnv} {x y c : ℕ}
     (es : List S2.Ev) (v : ℤ)
     (h : lmoParOpenMP S L lc x y (x / y) c threads print es = .ok v) : v = Spec.S2 x y c :=
   lmoParOpenMP_eq S hS lc hlc threads print hL hy hyx hc es v h
+
+/-- on ANY recorded history the region either returns `Spec.S2 x y c` or reports `badRun` (the history is not a complete run of
+    the dispenser by workers reporting their values): with the contracts in place no out-of-bounds read, division by zero or
+    hanging segment loop is possible -/
+theorem lmo_region_ok_or_badRun {σ : Type} (S : SieveOps σ) {L : LmoEnv} {x y c : ℕ}
+    (hS : ∀ K, K ≤ π y → ∃ H : SieveSpec S K, ∀ low seg, 240 ∣ low → 240 ∣ seg → 0 < seg → H.segOK low seg)
+    (lc : Consts) (hlc : lc.WF) (threads : ℕ) (print : Bool)
+    (hL : LmoOK L y) (hy : 1 ≤ y) (hyx : y * y ≤ x) (hc : 3 ≤ c ∨ π y ≤ c) (es : List S2.Ev) :
+    lmoParOpenMP S L lc x y (x / y) c threads print es = .ok (Spec.S2 x y c) ∨
+      lmoParOpenMP S L lc x y (x / y) c threads print es = .error .badRun :=
+  lmoParOpenMP_ok_or_badRun S hS lc hlc threads print hL hy hyx hc es
+
+/-- any chain of windows from `0` to `x / y` (e.g. the work items of a run, in order of `low`) sums to `Spec.S2 x y c` -/
+theorem lmo_chunks_total {x y c : ℕ} (hy : 1 ≤ y) (hyx : y * y ≤ x) {cs : List Chunk}
+    (hch : Chain 0 (x / y) cs) : sumF (lmoF x y c) cs = Spec.S2 x y c :=
+  TopLmo.lmo_chunks_total hy hyx hch
 
 /-- **`s2Lmo5_eq_S2`** — the file-local `S2` of pi_lmo5.cpp (one `Sieve` for the whole range `[0, x / y)`, segment size
     `align_segment_size(isqrt(x / y))`, `phi` all zero, loops `b <= pi_sqrty` and `b < pi_y`): `.ok (Spec.S2 x y c)` for every
@@ -179,6 +196,8 @@ end Pc.C02TopLmo
 #print axioms Pc.C02TopLmo.lmo_window_full
 #print axioms Pc.C02TopLmo.lmo_limit_plus_one_irrelevant
 #print axioms Pc.C02TopLmo.s2LmoPar_eq_S2
+#print axioms Pc.C02TopLmo.lmo_region_ok_or_badRun
+#print axioms Pc.C02TopLmo.lmo_chunks_total
 #print axioms Pc.C02TopLmo.s2Lmo5_eq_S2
 #print axioms Pc.C02TopLmo.get_c_admissible
 #print axioms Pc.C02TopLmo.piLmo5_eq_pi
